@@ -494,7 +494,7 @@ func init() {
 		Explanation: "Decides the structural clause 'no unchecked dynamic-type assumption on client-derived values in parse/plan code, and the per-entry recover barriers exist': every non-comma-ok type assertion in the parse/plan region is dominated by a successful comma-ok test or has a construction-fixed dynamic type; (*table).insert and (*DB).mapPartitionRequest install recover() first and spawn nothing below; a rejected entry still advances the WAL offset.",
 		NotDecided:  []string{"panics from index/nil/arithmetic inside sqlparser, goexpr, bytemap on arbitrary bytes (no barrier at sql.Parse, and none is added)", "semantic validation of arities beyond what produces a dynamic-type assumption", "replication stall if mapPartitionRequest panics (reading note: the recovered path sends no result; no panicking input was found)"},
 		Assumptions: []string{"the parse/plan region is closed under static calls and the listed plan-time interface methods"},
-		Rules:       []func(*Ctx){ruleC16a, ruleC16b, ruleC16c},
+		Rules:       []func(*Ctx){ruleC16a, ruleC16b, ruleC16c, func(c *Ctx) { ruleC16d(c, "C16.d") }},
 	})
 }
 
@@ -671,4 +671,135 @@ func ruleC16c(c *Ctx) {
 	} else if n == 0 {
 		c.ok(rule, "no panicking constructor in the region", token.NoPos, itoa(nErrForm)+" regexp.Compile call(s) use the error-returning form")
 	}
+}
+
+// ruleC16d: dynamic-type assumptions on values computed from stored/ingested
+// data at row-processing time.
+func ruleC16d(c *Ctx, rule string) {
+	c.describe(rule, "reg+dom: outside the parse/plan region, every non-comma-ok type assertion on the result of a goexpr.Expr.Eval (a value computed from row data) is either inside a per-entry recover barrier's extent ((*table).insert via doInsert, mapPartitionRequest), or a nil-guarded .(bool) on a WHERE predicate, or on a filter that every caller passes as nil; anything else turns unexpected data into a process crash")
+	barrier := map[string]bool{"(*z.table).doInsert": true, "(*z.DB).mapPartitionRequest": true}
+	// doInsert is only called from (*table).insert (which has the barrier)
+	if di := c.P.Func("(*z.table).doInsert"); di != nil {
+		okCallers := true
+		n := 0
+		for _, fn := range c.P.ModFns {
+			for _, call := range callsTo(fn, "(*z.table).doInsert") {
+				n++
+				_ = call
+				if stableName(fn) != "(*z.table).insert" {
+					okCallers = false
+				}
+			}
+		}
+		if !okCallers || n == 0 {
+			delete(barrier, "(*z.table).doInsert")
+		}
+	}
+	n := 0
+	for _, fn := range c.P.ModFns {
+		p := pkgOf(fn)
+		if p == "z/cmd/zeno" || p == "z/cmd/zenotool" || p == "z/testsupport" {
+			continue
+		}
+		for _, in := range instrs(fn) {
+			ta, ok := in.(*ssa.TypeAssert)
+			if !ok || ta.CommaOk {
+				continue
+			}
+			call, ok := ta.X.(*ssa.Call)
+			if !ok || calleeName(call) != "invoke (github.com/getlantern/goexpr.Expr).Eval" {
+				continue
+			}
+			n++
+			c.touch(fn)
+			top := fn
+			for top.Parent() != nil {
+				top = top.Parent()
+			}
+			inst := stableName(fn) + " .(" + typeStr(ta.AssertedType) + ") on Eval of " + describeOperand(call.Call.Value)
+			switch {
+			case barrier[stableName(top)]:
+				c.ok(rule, inst, ta.Pos(), "inside the extent of a per-entry recover barrier")
+			case typeStr(ta.AssertedType) == "bool" && nilGuarded(ta, call):
+				c.ok(rule, inst, ta.Pos(), "nil-guarded .(bool) on a boolean predicate")
+			case allCallersPassNil(c, top, call.Call.Value):
+				c.ok(rule, inst, ta.Pos(), "the evaluated expression is a parameter that every caller passes as nil (dead at run time)")
+			default:
+				c.bad(rule, inst, ta.Pos(), "unchecked type assertion on a value computed from row data, with no recover barrier around it: data of an unexpected shape (missing or non-string dimension) panics in the query path and kills the process")
+			}
+		}
+	}
+	c.floor(rule, "row-time assertions on Eval results", n, 3)
+}
+
+func nilGuarded(ta *ssa.TypeAssert, v ssa.Value) bool {
+	for _, g := range guardsOf(ta.Block()) {
+		if x, nn, ok := nilTest(g); ok && nn && x == v {
+			return true
+		}
+	}
+	return false
+}
+
+// allCallersPassNil: recvExpr is (a load of) a parameter of fn, and every
+// static caller in the module passes a nil constant for it.
+func allCallersPassNil(c *Ctx, fn *ssa.Function, recvExpr ssa.Value) bool {
+	var p *ssa.Parameter
+	if q, ok := strip(recvExpr).(*ssa.Parameter); ok {
+		p = q
+	}
+	if p == nil || p.Parent() != fn {
+		return false
+	}
+	idx := -1
+	for i, q := range fn.Params {
+		if q == p {
+			idx = i
+		}
+	}
+	n := 0
+	for _, g := range c.P.ModFns {
+		if strings.HasPrefix(pkgOf(g), "z/cmd") {
+			continue
+		}
+		for _, call := range calls(g) {
+			if call.Common().StaticCallee() != fn {
+				continue
+			}
+			n++
+			a := call.Common().Args[idx]
+			if isNilConst(a) {
+				continue
+			}
+			// forwarded parameter of the caller: recurse one level
+			if q, ok := a.(*ssa.Parameter); ok && q.Parent() == g {
+				if allCallersPassNil(c, g, q) {
+					continue
+				}
+			}
+			av := a
+			if u, ok := av.(*ssa.UnOp); ok && u.Op == token.MUL {
+				av = u.X
+			}
+			if fv, ok := av.(*ssa.FreeVar); ok {
+				rootv := cellRoot(fv)
+				if al, isAl := rootv.(*ssa.Alloc); isAl {
+					if sts := cellStores(al.Parent(), al); len(sts) == 1 {
+						rootv = sts[0].Val
+					}
+				}
+				if q, ok := rootv.(*ssa.Parameter); ok {
+					top := g
+					for top.Parent() != nil {
+						top = top.Parent()
+					}
+					if q.Parent() == top && allCallersPassNil(c, top, q) {
+						continue
+					}
+				}
+			}
+			return false
+		}
+	}
+	return n > 0
 }
